@@ -11,6 +11,7 @@ package main
 //                              increment of the counter before the counter is read for the next stream
 //   C08-b next-id-is-maximum   every value derived from Reader.MaxStreamID() that is assigned to a next-id variable
 //                              is a monotone update inside a range over the WHOLE reader list with no early exit
+//                              and is not off by one (guard and value evaluated as MaxStreamID() + k)
 //   C08-c id-lookup-is-total   the first-packet lookup that recovers the id of a known stream ranges over the whole
 //                              list of existing readers and leaves the loop early only when it has found the stream
 //   C08-d snapshot-format      saveSnapshots and loadSnapshots write and read the same sequence of records, and every
@@ -30,7 +31,7 @@ import (
 
 func init() {
 	register("C08",
-		"C08 (structural necessary conditions only; equality of the visible streams under every batching, arrival order and snapshot placement is NOT decided — it depends on timestamps and replay windows). C08-a (FLOW, two-phase, edge-pruned): in package builder an id copied from the next-id counter and handed unchanged to (*index.Writer).AddStream is followed by an increment of that counter on every path to the next read of the counter — otherwise two connections of one import get the same id. C08-b (typed AST): every assignment of a value derived from (*index.Reader).MaxStreamID() to a next-id variable (builder.FromPcap, manager.New) is a monotone update (guarded by a comparison of target and candidate, or max()) inside a range over the whole reader list whose body has no break/return/goto: ids of rewritten streams live on in newer files, so no single file knows the maximum. C08-c (FLOW): the first-packet lookup that recovers the id of an already known stream ranges over the whole list of existing readers and leaves the loop early only on the branch on which a stream was found, and a lookup that fails ends the import with an error (an index that cannot be read must not read as 'stream not known'). C08-d (sibling agreement): saveSnapshots and loadSnapshots agree on the sequence of records (nesting depth and type) they write and read, every field of snapshotHeader/snapshotEntryHeader set by the writer is read by the reader and vice versa, and every field of struct snapshot is read by the writer and assigned by the reader. C08-e: both packet lists that FromPcap merges are sorted through the comparator the merge step itself calls.",
+		"C08 (structural necessary conditions only; equality of the visible streams under every batching, arrival order and snapshot placement is NOT decided — it depends on timestamps and replay windows). C08-a (FLOW, two-phase, edge-pruned): in package builder an id copied from the next-id counter and handed unchanged to (*index.Writer).AddStream is followed by an increment of that counter on every path to the next read of the counter — otherwise two connections of one import get the same id. C08-b (typed AST): every assignment of a value derived from (*index.Reader).MaxStreamID() to a next-id variable (builder.FromPcap, manager.New) is a monotone update (guarded by a comparison of target and candidate — around the assignment or as an early continue —, or max()) inside a range over the whole reader list whose body has no break/return/goto: ids of rewritten streams live on in newer files, so no single file knows the maximum. Guard and value are evaluated as MaxStreamID() + k: the value has k >= 1, and a guard that is not taken leaves the counter above the file's largest id (`counter < max` lets the counter equal an id in use). C08-c (FLOW): the first-packet lookup that recovers the id of an already known stream ranges over the whole list of existing readers and leaves the loop early only on the branch on which a stream was found, and a lookup that fails ends the import with an error (an index that cannot be read must not read as 'stream not known'). C08-d (sibling agreement): saveSnapshots and loadSnapshots agree on the sequence of records (nesting depth and type) they write and read, every field of snapshotHeader/snapshotEntryHeader set by the writer is read by the reader and vice versa, and every field of struct snapshot is read by the writer and assigned by the reader. C08-e: both packet lists that FromPcap merges are sorted through the comparator the merge step itself calls.",
 		ruleC08FreshID, ruleC08NextIDMax, ruleC08LookupTotal, ruleC08SnapshotFormat, ruleC08MergeOrder)
 }
 
